@@ -63,6 +63,20 @@ func main() {
 		}
 		return nil
 	})
+	// 2b. variant-specific hook files: /verif/hooks-<variant>/<pkgpath>/zz_verif_*.go
+	filepath.Walk(filepath.Join(verif, "hooks-"+*variant), func(p string, fi os.FileInfo, err error) error {
+		if err != nil || fi.IsDir() {
+			return nil
+		}
+		if strings.HasSuffix(p, ".go") {
+			rel, _ := filepath.Rel(filepath.Join(verif, "hooks-"+*variant), p)
+			if !strings.HasPrefix(filepath.Base(rel), "zz_verif_") {
+				die("hook file %s must be named zz_verif_*.go", p)
+			}
+			ov[filepath.Join(repo, rel)] = p
+		}
+		return nil
+	})
 	if *variant == "plain" {
 		write(*out, ov)
 		return
